@@ -32,6 +32,8 @@ def features(decls):
             f.add("value:array" if depth == 0 else "value:nested-array")
             for x in v:
                 vf(x, depth + 1)
+        elif isinstance(v, tuple) and v[0] == "num":
+            f.add("value:spelled-number")
         elif isinstance(v, tuple):
             f.add("value:identifier" if v[0] == "id" else "value:string")
         elif isinstance(v, float):
